@@ -110,9 +110,7 @@ Record term := mkTerm { t_lines : Z; t_cols : Z; tg : list (list tcell); t_line 
 
 (* pens on the terminal are compared by their values (tickit_term_setpen leaves the terminal's
    pen equivalent to the one given); keep them in the all-attributes-present form *)
-Definition canon_pen (p : pen) : pen :=
-  mkPen (Some (attr_get DFLT_COLOUR (p_fg p))) (Some (attr_get DFLT_COLOUR (p_bg p)))
-        (Some (attr_get DFLT_BOOL (p_b p))) (Some (attr_get DFLT_INT (p_u p))).
+Definition canon_pen (p : pen) : pen := pen_build (fun a => Some (preads p a)).
 
 Definition bound (v lo hi : Z) : Z := if v <? lo then lo else if v >? hi then hi else v.
 
@@ -122,9 +120,13 @@ Definition t_set_cells (t : term) (line : Z) (f : Z -> tcell -> tcell) : term :=
          (t_line t) (t_col t) (t_cur t) (t_maybe t).
 Definition t_move (t : term) (l c : Z) : term := mkTerm (t_lines t) (t_cols t) (tg t) l c (t_cur t) (t_maybe t).
 
-(* the grapheme loop of mtd_print.  [pos] is the position reached in [s] (columns counted
+(* the grapheme loop of mtd_print (as repaired by fixes/C08-11 and C08-12: the continuation
+   cells of a double-width character are emptied only where they exist -- t_set_cells cannot
+   write outside the line anyway -- and a text that cannot make progress ends the loop; the
+   model prints valid texts only).  [pos] is the position reached in [s] (columns counted
    from the cursor column at the start of the print), [lim] the column limit of the previous
-   round. *)
+   round.  A grapheme that starts at or beyond the right edge wraps to column 0 of the next
+   line (of the same line on the last one), as the mock terminal does. *)
 Fixpoint t_print_loop (fuel : nat) (t : term) (s : list Z) (pos : spos) (lim : Z) : res term :=
   match fuel with
   | O => if Z.of_nat (length s) <=? sp_cp pos then Ok (t_move t (t_line t) (sp_col pos)) else NoFuel
@@ -134,10 +136,15 @@ Fixpoint t_print_loop (fuel : nat) (t : term) (s : list Z) (pos : spos) (lim : Z
       let lim := lim + 1 in
       let pos := count_on s pos (-1) lim in
       if sp_col pos =? sp_col start then t_print_loop f t s pos lim
+      else if sp_col start >=? t_cols t then
+        let t0 := if t_line t <? t_lines t - 1 then t_move t (t_line t + 1) (t_col t) else t in
+        let width := sp_col pos - sp_col start in
+        let t' := t_set_cells t0 (t_line t0)
+                    (fun x c => if x =? 0 then mkT (slice s start pos) (t_cur t)
+                                else if (0 <? x) && (x <? width) then mkT [] (t_cur t)
+                                else c) in
+        t_print_loop f t' s pos lim
       else
-        (* the mock wraps to the next line when start.columns >= cols and then writes beyond
-           the line it wrapped to; a well-behaved client never prints there *)
-        if (sp_col start >=? t_cols t) || (sp_col pos >? t_cols t) then Fault else
         let t' := t_set_cells t (t_line t)
                     (fun x c => if x =? sp_col start then mkT (slice s start pos) (t_cur t)
                                 else if (sp_col start <? x) && (x <? sp_col pos) then mkT [] (t_cur t)
@@ -170,7 +177,7 @@ Fixpoint t_run (t : term) (ops : list termop) : res term :=
 
 (* the sentinel pattern the harness draws before flushing, so that `untouched' is visible *)
 Definition sentinel_cell (l c : Z) : tcell :=
-  mkT [0x61 + (l * 7 + c * 3) mod 26] (canon_pen (mkPen (Some (16 + (l + 2 * c) mod 5)) None None None)).
+  mkT [0x61 + (l * 7 + c * 3) mod 26] (canon_pen (pen_fg (16 + (l + 2 * c) mod 5))).
 
 Definition t_init (lines cols gl gc : Z) (p : pen) (maybe_moves : bool) : term :=
   mkTerm lines cols
